@@ -39,7 +39,14 @@ def check(run, focus=FOCUS, modules=MODULES, suffix=SUFFIX):
     except Exception as e:       # noqa
         run.violation("broken-correspondence", {"kind": "translator", "arch": "riscv"}, f"the riscv obligations could not be generated: {e}", found_input=False)
         return
-    extra = ["DynasmVerif.A64Dyn." + t for t in gen["theorems"] if t.endswith(suffix)] + ["DynasmVerif.RvDyn." + t for t in gen_rv["theorems"] if t.endswith(suffix)]
+    try:
+        gen_reg = encgen.gen_regdyn()
+    except Exception as e:       # noqa
+        run.violation("broken-correspondence", {"kind": "translator", "arch": "registers"}, f"the register obligations could not be generated: {e}", found_input=False)
+        return
+    reg_suffix = ("_dyn_eq_static_checked", "_dyn_eq_static_release") if focus == "C03" else ("_injective",)
+    extra_reg = ["DynasmVerif.RegDyn." + t for t in gen_reg["theorems"] if t.endswith(reg_suffix)]
+    extra = extra_reg + ["DynasmVerif.A64Dyn." + t for t in gen["theorems"] if t.endswith(suffix)] + ["DynasmVerif.RvDyn." + t for t in gen_rv["theorems"] if t.endswith(suffix)]
     proofs_ok = common.standard_proof_step(run, modules, allow_bv_decide=True, extra_targets=["driver"], extra_theorems=extra)
     found_before = len(run.violations) + len(run.known_hit)
     if not proofs_ok and hasattr(run, "broken_build"):
@@ -54,6 +61,7 @@ def check(run, focus=FOCUS, modules=MODULES, suffix=SUFFIX):
         stats["x64_dynamic_registers"] = x64dyn.sweep(run, thorough)
     import regdyn
     stats["a64_rv_dynamic_registers"] = regdyn.sweep(run, focus, thorough)
+    stats["register_obligations"] = enc.sweep_reg_translation(run, gen_reg, focus)
     run.coverage["evaluations"] = stats["literal"] + stats["runtime"]
     run.coverage["distinct_nontrivial"] = stats["literal_accepted"] + stats["runtime_accepted"]
     run.coverage["rule"] = ("every distinct immediate command group of the aarch64 table (one representative form each) x boundary values of the documented set, values just outside, "
